@@ -106,3 +106,47 @@ func TestSelfDeadlock(t *testing.T) {
 		t.Fatal("deadlock not found")
 	}
 }
+
+// a select with a default branch never takes the default while one of its cases can complete:
+// a value always fits into the buffered channel, whatever the receiver is doing.
+func TestDefaultOnlyWhenNothingCompletes(t *testing.T) {
+	var took []string
+	h := Harness{Name: "default",
+		Root: func() {
+			took = nil
+			q := MakeChan[int](2)
+			Go("receiver", func() {
+				for {
+					q.Recv("r.recv")
+				}
+			})
+			GoClient("sender", func() {
+				for i := 0; i < 2; i++ {
+					sel := NewSelect("s.select", false)
+					AddSend(sel, q, i)
+					if sel.Wait(true) == -1 {
+						took = append(took, "default")
+					} else {
+						took = append(took, "sent")
+					}
+				}
+			})
+		},
+		Observe: func(s *Sched, out Outcome) string { return fmt.Sprint(out, took) },
+		Final: func(s *Sched, out Outcome) []Viol {
+			for _, x := range took {
+				if x == "default" {
+					return []Viol{{"default-although-send-possible", fmt.Sprint(took)}}
+				}
+			}
+			return nil
+		},
+	}
+	for _, o := range []Options{{Bound: -1}, {Bound: -1, Prune: true}, {Bound: 2, AllCost: true, Order: 1}, {Bound: 2, AllCost: true, Order: 3}} {
+		st := Explore(h, o)
+		t.Logf("%+v: exec=%d terminal=%v", o, st.Executions, st.Terminal)
+		if st.Violations != 0 {
+			t.Fatal("the default branch of a select was taken although the send could complete")
+		}
+	}
+}
